@@ -107,4 +107,10 @@ theorem accept_iff_mac_partial (f : KsFile) (pw : Bytes)
 example : CostOK nLight pDefault ∧ CostOK nStandard pDefault := by
   refine ⟨⟨by decide, by decide, by decide, by decide, by decide⟩, ⟨by decide, by decide, by decide, by decide, by decide⟩⟩
 
+/-- non-vacuity of every `readWalletFile f pw = .ok k` hypothesis (C07 and C15: `read_ok_shape`, `read_needs_mac`,
+    `read_sound_partial`, `cipher_unchecked_witness`): created files are read back, so such `f`, `pw`, `k` exist -/
+example : ∃ f pw k, readWalletFile f pw = .ok k :=
+  ⟨_, [1, 2], [9, 9], create_read_roundtrip [1, 2] [9, 9] [3] (List.replicate 16 0) nLight pDefault (by simp)
+    ⟨by decide, by decide, by decide, by decide, by decide⟩⟩
+
 end FFS.Props.C07
